@@ -796,14 +796,18 @@ class InterpStmts:
             done = SV(INT, z3.Int(core.fresh_name("idx")))
         # ---- entry
         s_entry = st.copy()
+        s_entry.entry2 = st.entry
         s_entry.entry = st
+        s_entry.iter0 = st.iter0
         for i, inv in enumerate(invs):
             g = self.eval_spec(inv, s_entry, {"done": done_entry, **self.loop_ghost(spec)})
             self.emit(st, "inv-entry", "%s[%d]" % (label, i), g)
         # ---- arbitrary iteration
         body_nodes = list(stmt.body) + [stmt.target] + ghost_step
         sh = self.havoc_for_loop(st, body_nodes, lc, label)
+        sh.entry2 = st.entry
         sh.entry = st
+        sh.iter0 = st.iter0
         if spec.mode == "set":
             x = z3.Const(core.fresh_name("x"), keysort(kk))
             y = z3.Const(core.fresh_name("y"), keysort(kk))
@@ -830,6 +834,8 @@ class InterpStmts:
         sb = sb.note("%s body" % label)
         if self.feasible(sb):
             for s1 in self.assign(stmt.target, elem, sb):
+                s1 = s1.copy()
+                s1.iter0 = s1.copy()        # start of this iteration (visible to inner loops as at_iter())
                 for tag, s2, payload in self.exec_block(stmt.body, s1):
                     if tag in ("next", "continue"):
                         if ghost_step:
@@ -843,7 +849,9 @@ class InterpStmts:
                             s2list = [s2]
                         for s2 in s2list:
                             s2c = s2.copy()
+                            s2c.entry2 = st.entry
                             s2c.entry = st
+                            s2c.iter0 = st.iter0
                             for i, inv in enumerate(invs):
                                 g = self.eval_spec(inv, s2c, {"done": done_next, **self.loop_ghost(spec)})
                                 self.emit(s2, "inv-step", "%s[%d]" % (label, i), g)
@@ -875,11 +883,15 @@ class InterpStmts:
         label = "loop%s" % ordinal
         invs = lc.get("inv") or []
         s_entry = st.copy()
+        s_entry.entry2 = st.entry
         s_entry.entry = st
+        s_entry.iter0 = st.iter0
         for i, inv in enumerate(invs):
             self.emit(st, "inv-entry", "%s[%d]" % (label, i), self.eval_spec(inv, s_entry, {}))
         sh = self.havoc_for_loop(st, list(stmt.body), lc, label)
+        sh.entry2 = st.entry
         sh.entry = st
+        sh.iter0 = st.iter0
         for inv in invs:
             sh.pc.append(self.eval_spec(inv, sh, {}))
         loop_mods = lc.get("modifies")
@@ -892,6 +904,7 @@ class InterpStmts:
                 for tag, s2, payload in self.exec_block(stmt.body, sa.note("%s body" % label)):
                     if tag in ("next", "continue"):
                         s2c = s2.copy()
+                        s2c.entry2 = st.entry
                         s2c.entry = st
                         for i, inv in enumerate(invs):
                             self.emit(s2, "inv-step", "%s[%d]" % (label, i), self.eval_spec(inv, s2c, {}))
@@ -1230,7 +1243,7 @@ class InterpStmts:
         if self.is_log_call(e):
             yield None, st
             return
-        if isinstance(e.func, ast.Name) and e.func.id in ("old", "at_entry") and st.lookup_frame(e.func.id) is None \
+        if isinstance(e.func, ast.Name) and e.func.id in ("old", "at_entry", "at_entry2", "at_iter") and st.lookup_frame(e.func.id) is None \
                 and len(e.args) == 1:
             yield self.eval_in_past(e.args[0], st, e.func.id), st
             return
@@ -1259,6 +1272,10 @@ class InterpStmts:
             past = st.old
             if isinstance(past, tuple):
                 past, env_override = past
+        elif which == "at_entry2":
+            past = st.entry2
+        elif which == "at_iter":
+            past = st.iter0
         else:
             past = st.entry
         if past is None:
